@@ -803,6 +803,15 @@ func (c *evalCtx) call(x *ast.CallExpr) SV {
 		term, _ := enc.convertTerm(v.term, v.t, ct, nil)
 		return SV{t: ct, term: term}
 	}
+	if sel, ok := x.Fun.(*ast.SelectorExpr); ok {
+		if pk, ok := sel.X.(*ast.Ident); ok && pk.Name == "strings" && (sel.Sel.Name == "Index" || sel.Sel.Name == "LastIndex") && len(x.Args) == 2 {
+			// the logical function behind the assumed model of strings.Index / LastIndex
+			fn := "lib!strings." + sel.Sel.Name
+			enc.R.extra(fmt.Sprintf("(declare-fun %s (Str Str) (_ BitVec 64))", fn))
+			a, b := c.eval(x.Args[0]), c.eval(x.Args[1])
+			return SV{t: types.Typ[types.Int], term: fmt.Sprintf("(%s %s %s)", fn, a.term, b.term)}
+		}
+	}
 	cfail("unknown function %s in contract (%s)", types.ExprString(x.Fun), c.what)
 	return SV{}
 }
